@@ -96,6 +96,9 @@ def _inputs():
         ref = (gen.rand_instances(rng, shape, 3) % 4).astype(np.uint8)
         pred = (gen.derive_prediction(rng, ref) % 4).astype(np.uint8)
         out[k] = (pred, ref)
+    # i2: an EMPTY prediction (metrics that are undefined there are missing from the result: what an
+    # evaluator reports for such an input must not shape what it advertises or reports later)
+    out["i2"] = (np.zeros_like(out["i2"][0]), out["i2"][1])
     return out
 
 
@@ -128,10 +131,26 @@ def _digest_arr(*arrs) -> str:
     return h.hexdigest()[:12]
 
 
+_NOMINAL: dict = {}
+
+
+def nominal_keys():
+    """what a fresh evaluator of each configuration advertises when asked first thing (once per process)"""
+    if not _NOMINAL:
+        with quiet():
+            for c, (cfg, groups) in _cfgs().items():
+                try:
+                    _NOMINAL[c] = list(_make(cfg, groups() if groups else None, False, "fresh", {}).resulting_metric_keys)
+                except Exception:  # noqa: BLE001   (a rejected configuration has no keys)
+                    pass
+    return [{"c": c, "k": k} for c, k in sorted(_NOMINAL.items())]
+
+
 def run_history(actions, workdir: Path) -> dict:
     """execute a history of API calls on real objects and record the observations"""
     from panoptica import Panoptica_Aggregator
     cfgs, inputs = _cfgs(), _inputs()
+    nominal = nominal_keys()
     shutil.rmtree(workdir, ignore_errors=True)
     workdir.mkdir(parents=True)
     evs, evcfg, has_keys = [], [], []
@@ -194,7 +213,7 @@ def run_history(actions, workdir: Path) -> dict:
             ev_rec["exception"] = "observation: " + f"{type(e).__name__}: {e}"[:200]
         events.append(ev_rec)
     shutil.rmtree(workdir, ignore_errors=True)
-    return {"ev": events}
+    return {"ev": events, "nominal": nominal}
 
 
 def random_history(rng, n):
@@ -224,6 +243,16 @@ def random_history(rng, n):
             cfg_of[a["e"]] = a["c"]
         else:
             a["c"] = cfg_of[a["e"]]
+    return acts
+
+
+def _with_final_queries(acts):
+    """every history ends by asking each evaluator for its advertised keys (QueryKeys / Refused steps of
+    Objects.tla), so that what the history did to them is observed"""
+    acts = list(acts)
+    cfg_of = {a["e"]: a["c"] for a in acts if a["act"] == "new_evaluator"}
+    for e, c in sorted(cfg_of.items()):
+        acts.append({"act": "query_keys", "e": e, "c": c, "inp": "-", "sgt": False, "ra": True, "log": False, "vb": False, "pool": "serial", "src": "-"})
     return acts
 
 
@@ -266,12 +295,13 @@ def check_C15(tier: str, v: Verdict):
         v.add_tlc(r)
         traces = []
         for i, acts in enumerate(hs):
+            acts = _with_final_queries(acts)
             t = run_history(acts, root / f"s{i}")
             t["tag"] = "tlc-behaviour"
             traces.append(t)
         v.cov["spec_behaviours_replayed"] = len(traces)
         for i in range(60 if tier == "quick" else 800):
-            t = run_history(random_history(rng, rng.randint(4, 12)), root / f"r{i}")
+            t = run_history(_with_final_queries(random_history(rng, rng.randint(4, 12))), root / f"r{i}")
             t["tag"] = "random-history"
             traces.append(t)
     finally:
@@ -281,7 +311,7 @@ def check_C15(tier: str, v: Verdict):
         cfg = sdir / "t.cfg"
         cfg.write_text("SPECIFICATION Spec\n" + "".join(f"INVARIANT {i}\n" for i in C15_CLAUSES))
         tf = sdir / "t.ndjson"
-        write_ndjson(tf, [{"ev": [{k: x for k, x in e.items() if k not in ("exception", "tb")} for e in t["ev"]]} for t in traces])
+        write_ndjson(tf, [{"ev": [{k: x for k, x in e.items() if k not in ("exception", "tb")} for e in t["ev"]], "nominal": t["nominal"]} for t in traces])
         r = run_tlc("Trace_Objects", str(cfg), env={"TRACE_FILE": str(tf)}, cont=True)
         v.add_tlc(r)
         if r.errors:
